@@ -21,7 +21,9 @@ From C13 Require Import Model.
 Import ListNotations.
 Open Scope N_scope.
 
-Definition run_params : params := mkP 4 6000 24000 10 (fun _ => 3) 10000000.
+(* the harness runs a two-range vote-lock schedule: 3 blocks below height 22, 5 from there on;
+   the lock in force is the one at the height of the spending block *)
+Definition run_params : params := mkP 4 6000 24000 10 (fun h => if (h <? 22)%N then 3 else 5)%N 10000000.
 
 Definition run_proposer (ck t : N) : N :=
   let start := ck + 6000 in
